@@ -430,6 +430,56 @@ def run(chk, prog):
         chk.finding("tls-server", vf.key, "required-edge", "", "%s:%s" % (vf.file, vf.line),
                     "TlsClientVerifyConfig::verifier no longer selects AllowAnyAuthenticatedClient exactly when `required` is set")
 
+    # NoClientAuth is chosen only when no `client:` block is configured.  client_auth() turns the optional block into a verifier; a
+    # failure to build the configured verifier (unreadable CA) must stay an error.  Decided on the function with its combinators
+    # rewritten into control flow: every NoClientAuth::new sits behind the None edge of a test of a value that is None exactly when
+    # self.client is (derived from it through as_ref / map / cloned only; and_then, ok(), filter can turn Some into None).
+    ca_ = prog.find(r"^common::tls::TlsServerConfig::client_auth$", "redproxy_rs")
+    if len(ca_) != 1:
+        chk.anchor_missing("tls-server", "TlsServerConfig::client_auth")
+    else:
+        from ..inline import desugar_combinators
+        from ..flow import option_tests as _ot2, flow_forward as _ff2
+        g0 = ca_[0]
+        try:
+            g = desugar_combinators(prog, type(g0), g0)
+        except Exception:
+            g = g0
+        seeds = [st["lhs"][0] for b in g.reachable for st in g.stmts(b)
+                 if st["k"] == "assign" and len(st["lhs"]) == 1 and st["rv"]["k"] in ("ref", "use") and
+                 "f:client" in (st["rv"].get("p") or op_place(st["rv"].get("a") or {}) or [])[1:]]
+        derived = set(_ff2(g, seeds, [r"Option::<T>::(as_ref|as_mut|as_deref|map|cloned|copied|inspect)$"])[0]) | set(seeds)
+        tests = [o for o in _ot2(g, derived) if o["kind"] in ("Option", "?")]
+        ncas = [c for c in g.calls if re.search(r"NoClientAuth::new$", c.path or c.name or "")]
+        kids_nca = []
+        for ch in prog.children(g0):
+            if any(re.search(r"NoClientAuth::new$", c.path or c.name or "") for c in ch.calls) and not ch.j.get("merged_away"):
+                kids_nca.append(ch)
+        okn = bool(ncas) or bool(kids_nca)
+        whyn = ""
+        for c in ncas:
+            if not any(edge_dominates(g, o["neg"][0], o["neg"][1], c.bb) for o in tests):
+                okn = False
+                whyn = "NoClientAuth::new at %s is reachable while self.client is Some" % c.where()
+        if not ncas:
+            # not rewritten (closure not a literal of this function): the closure must be the None-side argument of a combinator on a derived value
+            for ch in kids_nca:
+                used_ok = False
+                for c in g.calls:
+                    m_ = re.search(r"Option::<T>::(unwrap_or_else|or_else|map_or_else|ok_or_else)$", c.path or "")
+                    if m_ and c.args and op_base(c.args[0]) in derived and len(c.args) > 1:
+                        d_ = g.single_def(op_base(c.args[1])) if op_base(c.args[1]) is not None else None
+                        if d_ and d_[1] != "term" and d_[2]["k"] == "agg" and g.crate + "::" + str(d_[2].get("def")) == ch.key:
+                            used_ok = True
+                if not used_ok:
+                    okn = False
+                    whyn = "NoClientAuth::new in %s is not the None-side of a combinator on self.client" % ch.path
+        chk.instance("tls-server", "%s:%s" % (g0.file, g0.line), "client_auth() falls back to NoClientAuth only when no client block is configured", okn, whyn)
+        if not okn:
+            chk.finding("tls-server", g0.key, "no-client-auth-fallback", "", "%s:%s" % (g0.file, g0.line),
+                        "TlsServerConfig::client_auth can return NoClientAuth although a `client:` block is configured (%s): a listener whose CA cannot "
+                        "be loaded starts without client-certificate verification instead of refusing to start" % whyn)
+
     # ---------------------------------------------------------------- (5) TLS accept dominates
     from . import shared as _sh2
     for suffix in ("listeners/http.rs", "listeners/socks.rs"):
